@@ -42,6 +42,7 @@ def check_step(inst, V, ctx, body, direction, item, feature):
     for region, what in sc.panics:
         bad('panic-edge', 'for discriminants %s: %s' % (ivl.show(region), what), 'undischarged'); return None
     spec, last = spec_step(inst, direction)
+    spec_dom = spec.domain()
     none_region, some_region = [], []
     for region, kind, val, st, path in res:
         if kind != 'return':
@@ -56,7 +57,7 @@ def check_step(inst, V, ctx, body, direction, item, feature):
         t = p[2]
         if mentions(t, var):
             try:
-                f = sc.affine(t).restrict(region)
+                f = sc.affine(t, region=region)
             except Unrecognised as e:
                 bad('shape', str(e), 'unrecognised'); return None
             x = None
@@ -64,7 +65,7 @@ def check_step(inst, V, ctx, body, direction, item, feature):
                 for c, d in [(a, b)]:
                     # compare with the specification piece by piece
                     pass
-            nodom = ivl.diff(region, spec.domain(), sc.tlo, sc.thi)
+            nodom = ivl.diff(region, ivl.intersect(region, spec_dom), sc.tlo, sc.thi) if region else []
             if nodom:
                 x = nodom[0][0]
                 bad('step', '%s of the variant with discriminant %d returns Some(transmute(%d)) but that variant has no %s (it is %s)' % (word, x, f.at(x), 'successor' if direction == 'fwd' else 'predecessor', 'MAX' if direction == 'fwd' else 'MIN')); return None
